@@ -17,6 +17,8 @@ def run(res, work, tier, seed):
         vlib.tallycore(work, res, "C07: cycle || report loop (2 ticks) || root Close", deadlock=True,
                        Script="ScriptC07a", Passers="{}", Closers='{"z1"}', HasLoop="TRUE", MaxTicks=2, NObj=2)
     vlib.run_core_family(res, work, "c07", tier, seed, parts=6 if tier == "quick" else 12, clauses=CLAUSES, timeout=3400)
+    from props import corestep
+    corestep.run(res, work, tier, seed, "C07")   # step-level replay of the st-c07 scenarios through TallyCore.tla (drift, not a verdict)
     res.rule = ("executions of the real registry code under the controlled scheduler: DFS over the thread choices at the registry's lock hand-over "
                 "(RUnlock / Lock / delete / re-RLock), the closed-flag read, the lookup and insert of Subscope (quick: reduced point set, exhaustive; "
                 "thorough: all registry / metric-lock points, ~250k schedules) for one goroutine cycling obtain / record / Close / obtain / record against a "
